@@ -257,11 +257,14 @@ func (db *Database) resolveDirty() error {
 	if err != nil {
 		return err
 	}
+	legacy := false
 	if len(buf) >= headerSize && binary.BigEndian.Uint32(buf[44:48]) == 0 {
 		// A database without any table yet: SQLite decides on the schema
 		// format (and the text encoding) when the first table is made, and
 		// leaves 0 in the header until then. There is nothing in such a
-		// file that depends on either.
+		// file that depends on either. Should there be tables all the
+		// same, then SQLite reads them as format 1.
+		legacy = true
 		buf = append([]byte{}, buf...)
 		binary.BigEndian.PutUint32(buf[44:48], 4)
 		if binary.BigEndian.Uint32(buf[56:60]) == 0 {
@@ -282,7 +285,7 @@ func (db *Database) resolveDirty() error {
 	db.header = &newHeader
 	// schema format (1, 2, 3 or 4): only format 4 files store DESC indexes in
 	// descending order
-	db.ignoreDesc = binary.BigEndian.Uint32(buf[44:48]) < 4
+	db.ignoreDesc = legacy || binary.BigEndian.Uint32(buf[44:48]) < 4
 	return nil
 }
 
